@@ -33,8 +33,10 @@ type c04Obs struct {
 	Relens   frLens  `json:"relens"`  // Len() of the re-parsed elements
 	ReserErr bool    `json:"resererr"`
 	Fixpoint bool    `json:"fixpoint"` // bytes equal after parse + re-serialise
-	Equal    bool    `json:"equal"`    // constructed == re-parsed (DeepEqual modulo nil/empty)
+	Equal    bool    `json:"equal"`    // constructed == re-parsed, DeepEqual modulo nil/empty and cached wire lengths
 	EqDiff   string  `json:"eqdiff"`
+	EqualAll bool    `json:"equalall"` // the same including the cached wire-length fields (informational)
+	EqAllDif string  `json:"eqalldiff"`
 	Panic    string  `json:"panic"`
 }
 
@@ -96,7 +98,8 @@ func c04Run(b *c04Behaviour) (obs c04Obs) {
 	obs.Fixpoint = bytes.Equal(b1, b2)
 	// compare after both sides have been serialised once (Serialize fills cached length fields),
 	// as the package's own Test_Message does
-	obs.Equal, obs.EqDiff = frDeepEq(m1, m2)
+	obs.Equal, obs.EqDiff = frDeepEqValue(m1, m2)
+	obs.EqualAll, obs.EqAllDif = frDeepEq(m1, m2)
 	return
 }
 
